@@ -240,8 +240,9 @@ class ExecExpr(ExecCore):
         if isinstance(ty, Ty.TInst):
             ft = field_type(ty.cls, attr)
             if ft is not None:
+                untouched = attr not in st.heap or st.heap[attr].eq(z3.Const('H0_' + attr, FieldArr))
                 term = st.field(attr)[va(base.term)]
-                st.assume(shape(st, term, ft))
+                st.assume(shape(st, term, ft, pre=untouched))
                 if isinstance(ft, Ty.TFunc) and ft.recv_field:
                     # a bound method stored in a field; its receiver is another field of the same object
                     rt = field_type(ty.cls, ft.recv_field)
@@ -348,7 +349,7 @@ class ExecExpr(ExecCore):
             raise Unsupported('store to undeclared field %s of %s' % (attr, ty.cls))
         if not compat(v.ty, ft):
             self.oblige(st, shape(st, v.term, ft), 'fieldtype[%s.%s]' % (ty.cls.split(':')[1], attr), 'fieldtype')
-        st.heap[attr] = z3.Store(st.field(attr), va(base.term), v.term)
+        st.heap[attr] = z3.Store(st.field(attr), z3.simplify(va(base.term)), v.term)
         return [st], []
 
     # ------------------------------------------------------------------ displays
@@ -928,7 +929,7 @@ class ExecExpr(ExecCore):
                 raises.append(self.raised(no, 'builtins:KeyError', [key]))
             if has is not None:
                 v = has.DV[a][key.term]
-                has.assume(shape(has, v, ty.v))
+                has.assume(shape(has, v, ty.v, pre=has.DV.eq(z3.Const('DV0', DVArr))))
                 sv = SV(v, ty.v)
                 if base.has_py and key.has_py and isinstance(base.py, dict) and key.py in base.py and \
                         isinstance(base.py[key.py], front.CONST_TYPES):
@@ -951,7 +952,7 @@ class ExecExpr(ExecCore):
                 else:
                     ety = ty.t
                 v = seq[i]
-                ok.assume(shape(ok, v, ety))
+                ok.assume(shape(ok, v, ety, pre=ok.L.eq(z3.Const('L0', ListArr))))
                 out.append((ok, SV(v, ety)))
             return out, raises
         if isinstance(ty, Ty.TStr):
